@@ -1957,6 +1957,13 @@ class DesignSpace:
         for name, val in self.__current_value.items():
             self.__current_value[name] = array(val, dtype=complex128)
 
+        # The data type of the current value is part of the normalization data:
+        # they have to be computed again,
+        # otherwise (un)normalized vectors are cast to float
+        # and their imaginary part is lost.
+        self.__update_current_metadata()
+        self.__norm_data_is_computed = False
+
     @classmethod
     def from_file(
         cls,
